@@ -25,7 +25,7 @@ CLAIMED["C05"] = ("MIR rule extraction (mirsym, compositional mode) of the expre
     "trusts rustc's MIR printer, mirsym and the leaf/trivia identity summaries, the precedence oracle (Lua manual), z3; trees deeper than the bound and comment interaction are outside", "5/C05")
 
 CLAIMED["C04"] = ("regex patterns + replacer closure + get_quote_to_use read from the MIR (mirsym), leftmost-first replace_all encoding over N symbolic characters, z3 against an independent Lua string decoder; literal replay",
-    "bounded symbolic model checking: for every literal body of <=4 (thorough 6) characters over the escape alphabet, both input quotes, all 4 quote styles: decode(out)=decode(in), the output is lexically valid, forced quotes are honoured, the replacer's panics are unreachable; number arm: only 0-insertion before a leading dot",
+    "bounded symbolic model checking: for every literal body of <=4 (thorough 5) characters over the escape alphabet, both input quotes, all 4 quote styles: decode(out)=decode(in), the output is lexically valid, forced quotes are honoured, the replacer's panics are unreachable; number arm: only 0-insertion before a leading dot",
     "trusts rustc's MIR printer, mirsym, the regex front end (leftmost-first semantics), the decoder oracle, z3; longer literals are outside", "5/C04")
 
 CLAIMED["C08"] = ("mirsym over should_format_node / check_toggle_formatting / format_block (one loop step + tail) / format_stmt / format_last_stmt / format_eof with symbolic comment lines, flags and FormatNode outcomes; z3 obligations; directive battery replay",
